@@ -232,6 +232,27 @@ def extname_block(tree, rel, deco, known):
     raise TranslateError("%s: %s.wrapper: extension_name block not of a known form: %s" % (rel, deco, blocks[0].replace("\n", " / ")))
 
 
+VRP_HEAD = "if is_observable20:\n    ref_prop_type = ObjectReferenceProperty\nelse:\n    ref_prop_type = ReferenceProperty"
+VRP_LOOP = ("for prop_name, prop_obj in props_map.items():\n    tail = prop_name.<SPLIT>('_', 1)[-1]\n"
+            "    if tail == 'ref' and (not isinstance(prop_obj, ref_prop_type)):\n        raise ValueError\n"
+            "    elif tail == 'refs' and (not (isinstance(prop_obj, ListProperty) and isinstance(prop_obj.contained, ref_prop_type))):\n"
+            "        raise ValueError")
+
+
+def ref_rule_shape(tree):
+    """_validate_ref_props: the suffix looked at is what follows the LAST underscore (rsplit) -- True; the first
+    underscore (split) -- False."""
+    fn = _function(tree, "_validate_ref_props", "stix2/registration.py")
+    if ast.unparse(fn.args) != "props_map, is_observable20=False":
+        raise TranslateError("_validate_ref_props: unexpected signature")
+    st = _stmts(fn)
+    if st == [VRP_HEAD, VRP_LOOP.replace("<SPLIT>", "rsplit")]:
+        return True
+    if st == [VRP_HEAD, VRP_LOOP.replace("<SPLIT>", "split")]:
+        return False
+    raise TranslateError("_validate_ref_props: body not of a known form: %s" % " // ".join(x.replace("\n", " / ") for x in st))
+
+
 def translate(repo, out_path=None):
     def mod(rel):
         with open(os.path.join(repo, rel), encoding="utf-8") as f:
@@ -249,6 +270,7 @@ def translate(repo, out_path=None):
     copied = properties_copied(mod("stix2/custom.py"))
     ext_uncond = extname_block(mod("stix2/v21/sdo.py"), "stix2/v21/sdo.py", "CustomObject", EXTNAME_SDO) \
         and extname_block(mod("stix2/v21/observables.py"), "stix2/v21/observables.py", "CustomObservable", EXTNAME_SCO)
+    last_us = ref_rule_shape(regn)
     vp = validate_props_shape(regn)
     exclusive, order = class_for_type_shape(regy)
     out = ["(* GENERATED by translators/tr_regflow.py from stix2/registration.py and stix2/registry.py -- do not edit *)",
@@ -274,13 +296,18 @@ def translate(repo, out_path=None):
             "(* the v21 CustomObject / CustomObservable wrappers register the extension_name= extension unconditionally",
             "   (so a taken name raises DuplicateRegistrationError) *)",
             "Definition src_extname_registers_unconditionally : bool := %s." % ("true" if ext_uncond else "false"),
+            "",
+            "(* _validate_ref_props: `tail = prop_name.rsplit('_', 1)[-1]` (true) -- what Registry.tail_us computes --,",
+            "   ReferenceProperty / ObjectReferenceProperty by is_observable20, ListProperty(contained) for _refs *)",
+            "Definition src_ref_rule_last_underscore : bool := %s." % ("true" if last_us else "false"),
             ""]
     text = "\n".join(out)
     if out_path:
         with open(out_path, "w", encoding="utf-8") as f:
             f.write(text)
     return text, {"flows": flows, "ext_check": ext_check, "validate_props": vp, "cft_exclusive": exclusive, "cft_order": order,
-                  "properties_copied": copied, "extname_unconditional": ext_uncond}
+                  "properties_copied": copied, "extname_unconditional": ext_uncond,
+                  "ref_rule_last_underscore": last_us}
 
 
 if __name__ == "__main__":
